@@ -11,6 +11,9 @@ def check(pid, cat, text, note, technique, ref):
     CHECKS[pid] = dict(cat=cat, text=text, note=note, technique=technique, ref=ref)
 
 exec(open(os.path.join(ROOT, "tools", "manifest_table.py")).read())
+import glob
+for f in sorted(glob.glob(os.path.join(ROOT, "tools", "manifest.d", "*.py"))):
+    exec(open(f).read())
 
 props = [json.loads(l)["id"] for l in open(os.path.join(ROOT, "properties.jsonl")) if l.strip()]
 checks = []
